@@ -54,6 +54,9 @@ class PCATransformer(_PanelToPanelTransformer):
 
         # Transform the time series column into tabular format and
         # apply PCA to the tabular format
+        # (the PCA object is created in the constructor: bring it in line with
+        # the current parameter value, which set_params may have changed)
+        self.pca.set_params(n_components=self.n_components)
         self.pca.fit(X)
         self._is_fitted = True
         return self
